@@ -33,6 +33,47 @@ CHECKS = {
          "objects. TZ=UTC. EvalCorrect is not applied on days where two matching exceptions share a priority (the property fixes no "
          "tie-break); the oracle-free NoChangeBeforeNext is. Known finding F15c.",
     technique="TLA+ calendar/schedule spec evaluated by TLC (date x pattern grid, configuration family, timer machine); replay into the real matchers/interpreter; TLC validation of recorded evaluations and timer runs"),
+ "C01": dict(
+    category="model_checking",
+    text="Prims.tla gives canonical encoders/decoders for every primitive type on TLC-friendly representations (sign + octets for integers, "
+         "IEEE bit fields, bit sequences, (type, instance) pairs, four-octet dates/times, tagged strings) with application tagging and all "
+         "255 context numbers incl. the Boolean special case, and Representable(v); TLC evaluates Enc/Dec/round-trip/refusal on a grid of "
+         "3.1 k cases x 256 taggings (integers at 0, +-1, 2^k-1, 2^k, 2^k+1 for k in {7..64}; bit strings of every length 0..64 in 7 patterns; "
+         "every name/number of the 85 Enumerated subclasses found in the working tree; OID/float/string/date/time boundaries; unrepresentable "
+         "values). Every case is executed on the real classes both ways (quick: application tag + boundary/rotating context numbers, thorough: "
+         "all 255); random values (14 k / 250 k) and every Integer/Unsigned in +-2200 (+-70000) are recorded and judged by TLC.",
+    design_ref="DESIGN.md 5 (C01/C02)",
+    note="Trusted: TLC, Prims.tla, the renderer (floats are built from bit fields with struct for rendering only). Reals on IEEE bit fields, "
+         "NaNs of one width count as one value; character sets other than UTF-8 are decode -> re-encode stability only. Beyond 32 bits a value "
+         "is 'accepted' by the constructors: the encoder must refuse or emit the canonical longer form.",
+    technique="TLA+ codec spec (Prims.tla over Tags.tla) evaluated by TLC over the boundary grid; per-case replay into the real classes; TLC validation of recorded encode/decode calls"),
+ "C02": dict(
+    category="model_checking",
+    text="Tags.tla transcribes clause 20.2.1 tag framing (extended tag numbers, the 5..253 / 254 / 255 length escapes, application Boolean, "
+         "opening/closing) with EncList / DecList / Balanced / GetContext; TLC checks DecList(EncList(l)) = l with every octet consumed over the "
+         "class x number x length-boundary grid for lists of 0-3 tags, and for ALL octet strings <= 2 plus a 24-symbol class alphabet to length 4 "
+         "(thorough: all 17.2 M strings <= 3) that decoding either fails or is re-encode stable with no over-read, and GetContext <=> balanced "
+         "for every open/close word up to length 6 (8). Cases are replayed on TagList.encode/decode, Tag.decode, get_context, Any.decode/encode; "
+         "the implementation alone is swept over all strings <= 2 (<= 3) for termination / error family / stability; random and mutated longer "
+         "strings (incl. 65535/65536/70000-octet data) are recorded and judged by TLC.",
+    design_ref="DESIGN.md 5 (C01/C02)",
+    note="Trusted: TLC, Tags.tla, the renderer. Triples of tags use a reduced tag-number set {0,1,15,254}. get_context / Any pair brackets by "
+         "nesting level only (matching closing numbers is C03's business). Decoder liberality (non-minimal length escapes etc.) is in the spec too.",
+    technique="TLA+ framing spec (Tags.tla) evaluated by TLC exhaustively over short strings and over the tag-list grid; per-case replay; TLC validation of recorded decodes"),
+ "C03": dict(
+    category="model_checking",
+    text="Constructed.tla is a generic constructed-data codec over a schema algebra (atomic / enum / any / sequence with context + optional / "
+         "choice / sequence-of / list-of / array-of) with Enc, an LL(1) Dec with First sets, WellFormed (unique decodability, 10 named rules), "
+         "and simple octet framing for Annex F; golden/Schemas.tla pins all 228 constructed classes and 58 registered PDUs as data. TLC checks "
+         "WellFormed for every table and, per generated value (presence patterns, every alternative, list lengths 0..3, depth 4-5, pairwise "
+         "products), round trip, re-encode stability, balanced tags, trailing-tag rejection and 17 Annex F literals. Every grid case is built "
+         "in the real classes, encoded, compared tag-for-tag and octet-for-octet, decoded and re-encoded; random values per class (40 / 1200) "
+         "are recorded and judged by TLC; on every run the tables are re-extracted from the working tree and diffed against golden (SchemaDrift).",
+    design_ref="DESIGN.md 5 (C03), 6",
+    note="Trusted: TLC, Constructed.tla, the generic builder/projector, and the golden tables: 'matches the standard' is decided relative to "
+         "the pinned transcription, reviewed from memory for the services listed in DESIGN (no copy of the standard offline); Annex F vectors "
+         "are the ones reproducible verbatim. Property datatypes of object.py are not covered (C15 exercises them over the wire).",
+    technique="TLA+ generic codec spec (Constructed.tla) + pinned schema tables; TLC checks well-formedness and round trips over generated values; per-case replay into the real classes; schema-drift diff; TLC validation of recorded values"),
  "C04": dict(
     category="model_checking",
     text="TLC checks on TSM.tla (one action per ClientSSM/ServerSSM handler, FIFO medium with counted drop/dup/delay faults, "
@@ -100,6 +141,23 @@ CHECKS = {
          "are position coded. Function-evaluation use of TLC (pure codec): exhaustive over the stated boundary grid, not over all inputs. "
          "Trailing octets after fixed-length functions are tolerated by the code (named deviation, outside the property).",
     technique="TLA+ codec spec (BVLL.tla) evaluated by TLC over the case grid; per-case replay into the real codec; TLC validation of recorded encode/decode calls"),
+ "C10": dict(
+    category="model_checking",
+    text="Device.tla classifies a datagram by running the three header codecs of the specification itself (BVLL.Dec, NPCI.Dec, APCI.Dec) and "
+         "states what is required (exactly one reply with the same invoke ID of kind ack / error / reject / abort for an intact, unsegmented "
+         "confirmed-request header addressed to the device; nothing required otherwise) plus the monitors OneReplySameId, ReplyKindAllowed, "
+         "NeverSilentOnIntactHeader, NoLeftover, OthersStillProcessed, StillHealthy; a reactive machine over 222 abstract input classes x batch "
+         "shapes x companion requests is model-checked (59 k states) and the named deviations F6/F7/F8+F9 are shown to break the monitors. "
+         "Binding: for 53 valid frames (29 confirmed services + variants, 11 unconfirmed, network messages, routed / broadcast / forwarded "
+         "envelopes) all truncations, insertions and single-octet substitutions (quick: sampled values at every position; thorough: all 255), "
+         "noise at three layers and interleavings with valid requests are ingested into a real device as deferred calls drained by run_once; "
+         "replies, residual transactions/timers (immediately and after all timeouts) and a follow-up ReadProperty are recorded and judged by "
+         "TLC (Trace_Device.tla) on the octets.",
+    design_ref="DESIGN.md 5 (C10)",
+    note="Trusted: TLC, the codec specs (bound by C07/C08/C09), the device builder and recorder in c10.py. Datagrams enter at AnnexJCodec "
+         "(no sockets). Which of the four reply kinds is returned for a mutated body is deliberately not judged. Unknown BVLL functions (F9: "
+         "KeyError escapes AnnexJCodec) need no reply and leave nothing behind: recorded as observation.",
+    technique="TLA+ reactive spec (Device.tla) composing the codec specs; TLC model check over input classes; mutated/garbage datagrams ingested into the real device and validated by TLC on the octets"),
  "C11": dict(
     category="model_checking",
     text="TSMids.tla models invoke-ID allocation (cursor, skip-live, application-chosen IDs) and the (invoke ID, peer address) lookup of "
